@@ -459,6 +459,12 @@ class Runner:
             ab = Abs(g.tables)
             d = os.path.join(self.base, 'h%d' % h)
             lines = ['NEW %s %s' % (d, ','.join(g.tables) if g.tables else '-')]
+            if self.focus in ('C04', 'C16') and h % 5 == 4:
+                # the store's first open finds an event.map that already exists: zero-filled, one to several chunks long or an odd
+                # length (pre-sized by an operator, or left by an interrupted creation); no extra tables in these histories
+                g.tables = []
+                ab = Abs([])
+                lines = ['PRE %s %d' % (d, rng.choice([2048, 4096, 6144, 10240, 6152, 5000, 100, 8])), 'OPN %s -' % d]
             steps = []
             ids, addrs = [], []
             submitted = {}      # id -> ev (what was submitted under that id)
@@ -618,7 +624,7 @@ def judge(c, hists, oracles, relevant=None):
     for hi, h in enumerate(hists):
         w, m, lines = h['w'], h['m'], h['lines']
         def replay(upto):
-            return [l for l in lines[:upto + 1] if l[:3] in ('NEW', 'STO', 'REM', 'VAN', 'OPN', 'RBD', 'XPT')] + ([lines[upto]] if lines[upto][:3] not in ('NEW', 'STO', 'REM', 'VAN', 'OPN', 'RBD', 'XPT') else [])
+            return [l for l in lines[:upto + 1] if l[:3] in ('NEW', 'PRE', 'STO', 'REM', 'VAN', 'OPN', 'RBD', 'XPT')] + ([lines[upto]] if lines[upto][:3] not in ('NEW', 'PRE', 'STO', 'REM', 'VAN', 'OPN', 'RBD', 'XPT') else [])
         def bad(kind, desc, li, found=True):
             c.violation(kind, desc, replay(li), found=found)
         if not w[0].startswith('ok'):
